@@ -6,6 +6,7 @@ import re
 from sa.model import AnalysisError, Unknown, norm, unwrap, EnumMember
 from sa.query import Facts, call_name, find_calls, try_fold, calls_in
 from sa.exc import ExcAnalysis
+from sa.decide import Walker, completions, cmp_parts, accepted_set
 from .common import (dongle_classes, protocol_classes, device_touching, command_methods)
 
 TECHNIQUE = ("exception-escape analysis over the resolved call graph, handler-discipline rules per "
@@ -272,6 +273,41 @@ def run(run):
                       key=f"{m.qualname}|ensure_connection|target", where=m.loc(c),
                       message=f"{m.qualname}: ensure_connection() does not resolve to the v2 protocol object's")
 
+    # -------------------------------------------------------------- R5
+    run.rule("R5", "Below the protocol layer nothing absorbs a link failure or a time-out: HSM2DongleCommError and HSM2DongleTimeoutError escape "
+             "every device-touching method of the dongle classes (no handler there catches them or a common base class without "
+             "re-raising), so that the command method above can set the flag / answer device-unreachable; a failing connect() during "
+             "bring-up leaves initialize_device as HSM2ProtocolError, which ensure_connection converts into HSM2DongleCommError.")
+    n_d = 0
+    for q in sorted(dev):
+        f_ = P.functions.get(q)
+        if f_ is None or f_.cls is None or not any(f_.cls in dc.mro() or dc in f_.cls.mro() for dc in dongle_classes(run)):
+            continue
+        n_d += 1
+        esc_ = E.esc(f_, f_.cls)
+        for exc in ("HSM2DongleCommError", "HSM2DongleTimeoutError"):
+            run.check("R5", exc in esc_, f"{f_.cls.name}.{f_.name}: {exc} propagates", key=f"{f_.qualname}|{exc}|absorbed", where=f_.loc(),
+                      message=f"{exc} raised by an exchange inside {f_.qualname} cannot leave it (a handler there catches it or a base class of it): the "
+                              "command would answer as if the device had replied and the comm-issue flag would never be set, so the next request "
+                              "goes out on the dead link without a reconnection")
+    run.floor("R5", "device-touching dongle methods", n_d, 25)
+    gi_ = A.cfg(init, V2)
+    par_i = _parents(init.node)
+    for cc in find_calls(A, init, "connect"):
+        tr_, h_ = catching_handler(E, par_i, cc, init, V2, "HSM2DongleCommError")
+        okc = h_ is not None
+        why = "no handler for HSM2DongleCommError around connect()"
+        if okc:
+            for hn in gi_.nodes_of(h_):
+                for lf in Walker(A, init, V2, lambda e: None).walk(hn):
+                    v_ = lf.deep(lf.node.ast.exc) if lf.kind == "raise" and lf.node.ast is not None and getattr(lf.node.ast, "exc", None) is not None else None
+                    cls_ = norm(v_.func) if isinstance(v_, ast.Call) else (norm(v_) if v_ is not None else f"<{lf.kind}>")
+                    if cls_ != "HSM2ProtocolError":
+                        okc, why = False, f"the handler leaves with `{cls_}`"
+        run.check("R5", okc, "a failing connect() leaves bring-up as HSM2ProtocolError", key="initialize_device|connect-failure|class", where=init.loc(cc),
+                  message=f"when connect() fails during (re)bring-up, {why}: ensure_connection only converts HSM2ProtocolError into HSM2DongleCommError, so a failed "
+                          "reconnection would escape the request (manager stops) instead of being answered device-unreachable and retried")
+
     # -------------------------------------------------------------- R3
     run.rule("R3", "_comm_issue is written True only inside HSM2DongleCommError handlers and in "
              "report_comm_issue; False only in __init__ and after re-initialisation in ensure_connection.")
@@ -301,7 +337,11 @@ def run(run):
         else:
             run.fail("R3", f"{wfn.qualname}|_comm_issue|non-constant", wfn.loc(tgt),
                      f"{wfn.qualname} assigns a non-constant to the comm-issue flag")
-    run.floor("R3", "writers of _comm_issue", nwr, 10)
+    rep_calls = 0
+    for f_ in P.all_functions:
+        for c_ in find_calls(A, f_, "report_comm_issue"):
+            rep_calls += 1
+    run.floor("R3", "sites that set / clear the comm-issue flag (direct writes + report_comm_issue() calls)", nwr + rep_calls, 10)
 
     # -------------------------------------------------------------- R4
     _classifier(run, E)
@@ -350,38 +390,50 @@ def _classifier(run, E):
                       "`raise BaseException(\"Error while writing\")` (HID write failure) escapes "
                       "unclassified and takes the manager down")
     if h is not None:
-        raises = [n for n in ast.walk(h) if isinstance(n, ast.Raise)]
-        order = []
-        for r in sorted(raises, key=lambda n: n.lineno):
-            order += E.class_names_of(r.exc, sc, D)
-        want = ["HSM2DongleErrorResult", "HSM2DongleTimeoutError", "HSM2DongleCommError", "HSM2DongleError"]
-        run.check("R4", order == want, f"classification order {want}",
-                  key="HSM2Dongle._send_command|classification-order", where=sc.loc(h),
-                  message=f"classification order in _send_command is {order}, expected {want}")
-        run.check("R4", isinstance(h.body[-1], ast.Raise), "handler always raises",
-                  key="HSM2Dongle._send_command|handler-ends-in-raise", where=sc.loc(h),
-                  message="the transport handler of _send_command can fall through without raising")
-        # each conditional raise is guarded by the right predicate
-        gnodes = {}
-        for r in raises:
-            for rn in g.nodes_of(r):
-                facts = Facts(A).local(sc, D, rn)
-                gnodes[E.class_names_of(r.exc, sc, D)[0]] = facts
-        okp = any(f.kind == "call" and f.pol and call_name(f.expr) == "is_timeout"
-                  for f in gnodes.get("HSM2DongleTimeoutError", []))
-        run.check("R4", okp, "timeout raise guarded by is_timeout(e)",
-                  key="HSM2Dongle._send_command|timeout-guard", where=sc.loc(h),
-                  message="HSM2DongleTimeoutError is raised without the is_timeout(e) guard")
-        okc = any(f.kind == "call" and f.pol and call_name(f.expr) == "is_comm_error"
-                  for f in gnodes.get("HSM2DongleCommError", []))
-        run.check("R4", okc, "comm raise guarded by is_comm_error(e)",
-                  key="HSM2Dongle._send_command|comm-guard", where=sc.loc(h),
-                  message="HSM2DongleCommError is raised without the is_comm_error(e) guard")
-        oku = any(f.kind == "call" and f.pol and call_name(f.expr) == "is_user_defined_error"
-                  for f in gnodes.get("HSM2DongleErrorResult", []))
-        run.check("R4", oku, "error-result raise guarded by is_user_defined_error(sw)",
-                  key="HSM2Dongle._send_command|user-guard", where=sc.loc(h),
-                  message="HSM2DongleErrorResult is raised without the is_user_defined_error guard")
+        # decision table of the handler: which exception class leaves for which classification outcome
+        evar = h.name
+
+        def atom(e):
+            cp = cmp_parts(e)
+            if cp is not None and cp[1] in ("==", "is") and {norm(cp[0]), norm(cp[2])} == {f"type({evar})", "CommException"}:
+                return ("CE", True)
+            if cp is not None and cp[1] in ("!=", "is not") and {norm(cp[0]), norm(cp[2])} == {f"type({evar})", "CommException"}:
+                return ("CE", False)
+            if isinstance(e, ast.Call) and call_name(e) == "isinstance" and len(e.args) == 2 and norm(e.args[0]) == evar and norm(e.args[1]) == "CommException":
+                return ("CE", True)
+            if isinstance(e, ast.Call) and call_name(e) == "is_user_defined_error" and len(e.args) == 1 and norm(e.args[0]) == f"{evar}.sw":
+                return ("U", True)
+            if isinstance(e, ast.Call) and call_name(e) == "is_timeout" and [norm(a) for a in e.args] == [evar]:
+                return ("T", True)
+            if isinstance(e, ast.Call) and call_name(e) == "is_comm_error" and [norm(a) for a in e.args] == [evar]:
+                return ("C", True)
+            return None
+        atoms = ["CE", "U", "T", "C"]
+        n_cases = 0
+        for hn in g.nodes_of(h):
+            for lf in Walker(A, sc, D, atom).walk(hn):
+                if lf.kind == "raise" and lf.value is not None:
+                    v_ = lf.deep(lf.node.ast.exc) if lf.node.ast is not None and getattr(lf.node.ast, "exc", None) is not None else lf.value
+                    cls_ = norm(v_.func) if isinstance(v_, ast.Call) else norm(v_)
+                else:
+                    cls_ = f"<{lf.kind}>"
+                for val in completions({k: b for k, b in lf.pc.items() if k in atoms}, atoms):
+                    n_cases += 1
+                    want = "HSM2DongleErrorResult" if (val["CE"] and val["U"]) else ("HSM2DongleTimeoutError" if val["T"] else (
+                        "HSM2DongleCommError" if val["C"] else "HSM2DongleError"))
+                    desc = ", ".join(f"{a}={'T' if val[a] else 'F'}" for a in atoms)
+                    kind = {"HSM2DongleErrorResult": "user-guard", "HSM2DongleTimeoutError": "timeout-guard", "HSM2DongleCommError": "comm-guard",
+                            "HSM2DongleError": "classification-order"}[want]
+                    run.check("R4", cls_ == want, f"[{desc}] -> {want}", key=f"HSM2Dongle._send_command|{kind}|{desc}", where=sc.loc(lf.node.ast) if lf.node.ast is not None else sc.loc(h),
+                              message=f"transport failure classification, case [{desc}] (CE: a CommException, U: status word in the device's error range, T: time-out, "
+                                      f"C: link error): _send_command leaves with `{cls_}`, expected `{want}`")
+        run.floor("R4", "classification cases", n_cases, 16)
+    # the status word ledgerblue gives a CommException raised without one (its time-outs) must not count as a device answer
+    isud = P.method(P.cls("ledger.hsm2dongle._Error"), "is_user_defined_error")
+    acc = accepted_set(A, isud, None, isud.params[0])
+    run.check("R4", 0x6F00 not in acc and 0x9000 not in acc, "0x6F00 / 0x9000 are not device error results", key="is_user_defined_error|not|0x6f00", where=isud.loc(),
+              message="is_user_defined_error accepts 0x6F00 (ledgerblue's default status word, carried by its time-out exception) or 0x9000: a time-out "
+                      "would be classified as a device error result before is_timeout() is consulted")
     # literals vs ledgerblue
     try:
         import importlib.util
